@@ -299,6 +299,81 @@ def t_histories(tier: str) -> list[tuple[list[dict[str, str]], str]]:
         res.append((h, gen.choice(["normal", "skip", "error"])))
     return res
 
+
+# ----------------------------------------------------------------------------- catalogue G (from TransDeps.tla)
+def g_module_text(i: int, direct: list[int], offers: dict[int, list[int]]) -> str:
+    """Module m<i>: imports its direct dependencies, re-exports every class they offer, refers to all of them."""
+    lines = ["import m%d" % j for j in direct]
+    seen = {i}
+    for j in direct:
+        for k in offers[j]:
+            if k not in seen:
+                seen.add(k)
+                lines.append("from m%d import K%d as K%d" % (j, k, k))
+    lines.append("class K%d:\n    x: int = 0" % i)
+    body = ["    m%d.K%d().x" % (j, k) for j in direct for k in offers[j]] or ["    pass"]
+    lines.append("def u() -> None:\n" + "\n".join(body))
+    return "\n".join(lines) + "\n"
+
+
+def g_reach(g: list[list[int]], n: int) -> dict[int, list[int]]:
+    d = {i: sorted({b for a, b in g if a == i}) for i in range(1, n + 1)}
+    out = {}
+    for i in d:
+        seen: set[int] = set(); todo = list(d[i])
+        while todo:
+            x = todo.pop()
+            if x not in seen:
+                seen.add(x); todo += d[x]
+        out[i] = sorted(seen)
+    return out
+
+
+def replay_g_case(args: tuple[dict[str, Any], tuple[str, str]]) -> dict[str, Any]:
+    case, (store, fmt) = args
+    W.preload()
+    n = 3
+    root = scratch("c02g-")
+    src, cache = os.path.join(root, "src"), os.path.join(root, "cache")
+    os.makedirs(src)
+    out: dict[str, Any] = {"runs": 0, "violation": None, "nontrivial": False, "trace": [], "drift": None}
+    g1, g2, e = case["g1"], case["g2"], case["e"]
+    r1 = g_reach(g1, n)
+    offers1 = {j: sorted(set(r1[j]) | {j}) for j in range(1, n + 1)}
+    tick = 1000
+
+    def put(name: str, txt: str) -> None:
+        nonlocal tick
+        with open(os.path.join(src, name), "w") as fh:
+            fh.write(txt)
+        tick += 1
+        os.utime(os.path.join(src, name), (1_000_000 + tick * 10,) * 2)
+
+    put("main.py", "".join("import m%d\n" % i for i in range(1, n + 1)))
+    for i in range(1, n + 1):
+        put("m%d.py" % i, g_module_text(i, sorted({b for a, b in g1 if a == i}), offers1))
+    kw = dict(sources=[("main.py", "main")], user_mods="*")
+    st = 0
+    for step in (1, 2):
+        if step == 2:
+            # the edited module imports its new dependencies and re-exports what they (unchanged) offer
+            put("m%d.py" % e, g_module_text(e, sorted({b for a, b in g2 if a == e}), offers1))
+        r = W.run_build(src, cache_dir=cache, store=store, fmt=fmt, tick=st, **kw); st = r["tick"]
+        c = W.run_build(src, cache_dir=None, record=False, **kw)
+        out["runs"] += 1
+        out["trace"].append(r["trace"])
+        if r.get("crash") or W.norm(r) != W.norm(c):
+            out["violation"] = {"what": "warm (%s/%s): status %s %r ; cold: status %s %r %s" % (
+                store, fmt, r["status"], r["messages"][:5], c["status"], c["messages"][:5], (r.get("crash") or "")[-300:]), "at_run": step}
+            break
+        if step == 2:
+            real_fresh = sorted(int(ev["mod"][1:]) for ev in r["trace"] if ev["ev"] == "fresh" and ev["mod"][:1] == "m" and ev["mod"][1:].isdigit())
+            if real_fresh != sorted(case["fresh"]):
+                out["drift"] = {"model_fresh": sorted(case["fresh"]), "real_fresh": real_fresh}
+            out["nontrivial"] = bool(real_fresh) and len(real_fresh) < n
+    shutil.rmtree(root, ignore_errors=True)
+    return out
+
 EXT_DIMS = ["c.pyi", "d", "p/__init__", "p/x", "e", "@bdir"]
 
 
@@ -407,6 +482,40 @@ def main(argv: list[str]) -> int:
             if key not in tseen:
                 tseen.add(key)
                 v.violation(key, {"kind": "T-history", "cfg": cfg, "follow": follow, "history": ws, "minimal": mini}, r["violation"]["what"])
+    # ---- 3a'. catalogue G: import-graph edits emitted by TLC from TransDeps.tla (re-exporting modules)
+    sany(os.path.join(SPEC, "MC_TransDeps.tla"))
+    for c, expect in (("MC_TransDeps.cfg", None), ("MC_TransDeps_reexp.cfg", None), ("Mut_TransDeps_FirstLevelOnly.cfg", "FreshIsSound")):
+        if tier == "quick" and c == "MC_TransDeps_reexp.cfg":
+            continue
+        rt = tlc("MC_TransDeps", c, timeout=3000, coverage=False)
+        if rt.error:
+            raise MachineryError("TLC %s: %s" % (c, rt.error))
+        if expect:
+            if rt.violated not in ("FreshIsSound", "HashCoversReach"):
+                raise MachineryError("specification mutant %s not rejected" % c)
+            cov["spec_mutants_rejected"][c] = rt.violated
+        else:
+            if rt.violated:
+                v.violation("model:%s:%s" % (c, rt.violated), {"cfg": c, "trace": rt.trace_text}, "specification invariant violated")
+            states += rt.distinct; transitions += rt.generated
+            cov[c] = {"states": rt.distinct, "transitions": rt.generated}
+    gg = tlc("MC_TransDeps", "Gen_TransDeps_3.cfg", workers=1, coverage=False, timeout=900)
+    if not gg.ok:
+        raise MachineryError("Gen TransDeps: %s %s" % (gg.violated, gg.error))
+    gcases = gg.json_lines("CASE")
+    if len(gcases) < 300:
+        raise MachineryError("too few TransDeps cases emitted")
+    gwork = [(c, W.CONFIGS[i % 4]) for i, c in enumerate(gcases)]
+    gresults = []
+    with ProcessPoolExecutor(16) as pex:
+        for res in pex.map(replay_g_case, gwork, chunksize=8):
+            gresults.append(res)
+    n_runs += sum(r["runs"] for r in gresults)
+    for (case, cfg), r in zip(gwork, gresults):
+        if r["violation"]:
+            v.violation("G:" + json.dumps({"g1": case["g1"], "g2": case["g2"], "e": case["e"]}, sort_keys=True),
+                        {"kind": "G-case", "case": case, "cfg": cfg}, r["violation"]["what"])
+    gdrift = [dict(r["drift"], case={k: c[k] for k in ("g1", "g2", "e")}) for (c, _), r in zip(gwork, gresults) if r["drift"]]
     # ---- 3b. the repository's own multi-step incremental scenarios, expected outputs ignored
     from harness import corpus as C
     from harness.common import REPO
@@ -436,13 +545,13 @@ def main(argv: list[str]) -> int:
         v.violation("trace:" + json.dumps(rej["at"]), rej, "recorded store trace is not a behaviour of Trace_Incremental.tla: " + rej["why"])
     if tv["validated"] == 0 or n_runs == 0:
         raise MachineryError("conformance step did not run")
-    nontrivial = sum(1 for r in results + rresults + cresults + tresults if r["nontrivial"])
+    nontrivial = sum(1 for r in results + rresults + cresults + tresults + gresults if r["nontrivial"])
     coverage = {
         "states": states, "transitions": transitions,
         "traces_validated_against_impl": tv["validated"],
-        "evaluations": len(work) + len(rwork) + len(twork) + len(cwork), "distinct_nontrivial": nontrivial, "runs_compared_with_cold": n_runs,
+        "evaluations": len(work) + len(rwork) + len(twork) + len(cwork) + len(gwork), "distinct_nontrivial": nontrivial, "runs_compared_with_cold": n_runs,
         "corpus_cases_run": sum(1 for r in cresults if not r["skipped"]), "corpus_cases_skipped": sum(1 for r in cresults if r["skipped"]),
-        "model_histories": len(hists), "model_history_replays": len(work), "r_two_step": len(pairs), "r_multi_step": len(multi), "t_histories": len(twork),
+        "model_histories": len(hists), "model_history_replays": len(work), "r_two_step": len(pairs), "r_multi_step": len(multi), "t_histories": len(twork), "g_cases": len(gwork), "g_model_drift_count": len(gdrift), "g_model_drift": gdrift[:5],
         "model_drift": [{"cfg": w[1], "drift": d} for w, d in drift[:10]], "model_drift_count": len(drift),
         "rule": "every history TLC emits for Gen_Incremental.cfg (<=3 runs, <=2 edits, <=1 touch over catalogue M) replayed in the store x format "
                 "configurations (quick: rotating, thorough: all four); catalogue R two-step histories (thorough: all 9,120) and a fixed set of 3-4 step "
